@@ -51,7 +51,13 @@ func (c cutExpr) expr() expr.Expr {
 	ex := c.ex
 	if c.begin > 0 {
 		shift := expr.ConstFromUint(uint16(c.begin) * 8)
-		ex = expr.NewBinary(expr.Rsh, ex, shift, ex.Width())
+		// The shift must not be narrower than the shift constant,
+		// otherwise the number of bits to shift would be truncated.
+		w := ex.Width()
+		if w < shift.Width() {
+			w = shift.Width()
+		}
+		ex = expr.NewBinary(expr.Rsh, ex, shift, w)
 	}
 
 	return exprtransform.SetWidth(ex, c.end-c.begin)
